@@ -52,6 +52,9 @@ def corpus_must_compile(ctx, rule="compile"):
     for c in fx.crates:
         if c.get("expect_fail"):
             continue
+        w = c.get("witness")
+        if w is not None and not c.get("indexed", True):
+            continue            # pure compile witnesses are decided by witness.run_for of the owning property
         errs = F.target_errors(fx, c)
         ctx.inst(rule)
         if errs or (c.get("indexed", True) and not c["has_expansion"]):
